@@ -40,6 +40,7 @@ type Seam struct {
 	Log     []ReadRec
 	Stream  uint64 // stream id: different ids give unrelated pattern-A streams
 	StreamOf func() uint64
+	Before   func() // called at the start of every Read (scheduling point of the cooperative scheduler)
 	pos     map[uint64]uint64
 }
 
@@ -69,6 +70,9 @@ func StreamBytes(stream, off uint64, n int) []byte {
 }
 
 func (s *Seam) Read(p []byte) (int, error) {
+	if s.Before != nil {
+		s.Before()
+	}
 	call := len(s.Log)
 	ans := AnsA
 	if call >= s.Horizon {
